@@ -167,15 +167,22 @@ for v in EXPECTED:
 
 # ---- meta_type ----------------------------------------------------------------------------------
 mt = fn_body(kmap, "meta_type", "map.rs")
+# two accepted shapes: the recursive one, and the iterative one with cycle detection proposed in
+# requests/C16-fix-1.diff (same function on acyclic chains, which is all Model/Types.lean contains)
 need = [
-    r"match\s+self\.get_meta_value\(&MetaKey::Type\)",
-    r"Some\(Str\(s\)\)\s*=>\s*Some\(s\)",
-    r"None\s*=>\s*match\s+self\.get_meta_value\(&MetaKey::Base\)\s*\{\s*Some\(Map\(base\)\)\s*=>\s*base\.meta_type\(\),\s*_\s*=>\s*None,",
+    r"match\s+(?:self|map)\.get_meta_value\(&MetaKey::Type\)",
+    r"Some\(Str\(s\)\)\s*=>\s*(?:return\s+)?Some\(s\)",
 ]
 for pat in need:
     if not re.search(pat, mt):
         die(f"meta_type: expected structure not found: {pat}")
-bm = re.search(r'Some\(_\)\s*=>\s*Some\("([^"]+)"\.into\(\)\)', mt)
+recursive = re.search(
+    r"None\s*=>\s*match\s+self\.get_meta_value\(&MetaKey::Base\)\s*\{\s*Some\(Map\(base\)\)\s*=>\s*base\.meta_type\(\),\s*_\s*=>\s*None,", mt)
+iterative = (re.search(r"None\s*=>\s*match\s+map\.get_meta_value\(&MetaKey::Base\)\s*\{\s*Some\(Map\(base\)\)\s*=>\s*\{", mt)
+             and re.search(r"map\s*=\s*base;", mt) and re.search(r"_\s*=>\s*return\s+None,", mt))
+if not (recursive or iterative):
+    die("meta_type: the walk along @base maps has an unexpected structure")
+bm = re.search(r'Some\(_\)\s*=>\s*(?:return\s+)?Some\("([^"]+)"\.into\(\)\)', mt)
 if not bm:
     die("meta_type: arm for a non-string @type not found")
 bad_meta = bm.group(1)
